@@ -7,7 +7,8 @@
 (* operators TxMonitor!MonStep that Transactions.tla proves never to trip  *)
 (* on the intended design (Prop_C18 / Prop_C19).                           *)
 (* One TLC run per batch: the first violation of each property in each     *)
-(* trace is appended to TLCGet(2) and printed as JSON by the               *)
+(* trace is appended to TLCGet(2) / TLCGet(4) (at most MaxBad per property) *)
+(* and printed as JSON by the                                              *)
 (* postcondition.  -workers 1.                                             *)
 (***************************************************************************)
 EXTENDS TxMonitor, TLC, Json
@@ -18,10 +19,10 @@ Lines == ndJsonDeserialize("tx_trace.ndjson")
 MaxBad == 400
 
 ParamsOf(l) == [kind |-> l.kind, rc |-> l.rc, rd |-> l.rd, to |-> l.to]
-Cnt0 == [traces |-> 0, t18 |-> 0, t19 |-> 0, chk18 |-> 0, chk19 |-> 0, bad |-> 0]
+Cnt0 == [traces |-> 0, t18 |-> 0, t19 |-> 0, chk18 |-> 0, chk19 |-> 0, bad18 |-> 0, bad19 |-> 0]
 
 TInit == /\ i = 0 /\ mon = Mon0([kind |-> "base", rc |-> 0, rd |-> 1, to |-> 0]) /\ cnt = Cnt0
-         /\ TLCSet(1, 0) /\ TLCSet(2, <<>>) /\ TLCSet(3, Cnt0)
+         /\ TLCSet(1, 0) /\ TLCSet(2, <<>>) /\ TLCSet(3, Cnt0) /\ TLCSet(4, <<>>)
 
 Bad(l, prop, sig) == [tr |-> l.tr, line |-> l.i, prop |-> prop, sig |-> sig, ev |-> l.ev, now |-> l.now]
 
@@ -30,23 +31,23 @@ TNext ==
     /\ i' = i + 1
     /\ LET l   == Lines[i + 1]
            m0  == IF l.ev = "new" THEN Mon0(ParamsOf(l)) ELSE mon
-           m1  == MonStep(m0, l)
+           m1  == mon'      \* (bound first: TLC would re-evaluate a LET definition at every use)
            b18 == IF m1.v18 # m0.v18 THEN <<Bad(l, "C18", m1.v18)>> ELSE <<>>
            b19 == IF m1.v19 # m0.v19 THEN <<Bad(l, "C19", m1.v19)>> ELSE <<>>
-           nb  == Len(b18) + Len(b19)
-       IN /\ mon' = m1
+       IN /\ mon' = MonStep(m0, l)
           /\ cnt' = IF l.ev = "end"
                     THEN [cnt EXCEPT !.traces = @ + 1,
                                      !.t18 = @ + (IF m1.n18 > 0 THEN 1 ELSE 0),
                                      !.t19 = @ + (IF m1.n19 > 0 THEN 1 ELSE 0),
                                      !.chk18 = @ + m1.n18, !.chk19 = @ + m1.n19,
-                                     !.bad = @ + nb]
-                    ELSE [cnt EXCEPT !.bad = @ + nb]
-          /\ (nb > 0 /\ cnt.bad < MaxBad) => TLCSet(2, TLCGet(2) \o b18 \o b19)
+                                     !.bad18 = @ + Len(b18), !.bad19 = @ + Len(b19)]
+                    ELSE [cnt EXCEPT !.bad18 = @ + Len(b18), !.bad19 = @ + Len(b19)]
+          /\ (b18 # <<>> /\ cnt.bad18 < MaxBad) => TLCSet(2, TLCGet(2) \o b18)
+          /\ (b19 # <<>> /\ cnt.bad19 < MaxBad) => TLCSet(4, TLCGet(4) \o b19)
           /\ TLCSet(1, i + 1)
           /\ (l.ev = "end") => TLCSet(3, cnt')
 
 Post == /\ PrintT("CONSUMED:" \o ToString(TLCGet(1)))
-        /\ PrintT("BAD:" \o ToJson(TLCGet(2)))
+        /\ PrintT("BAD:" \o ToJson(TLCGet(2) \o TLCGet(4)))
         /\ PrintT("STATS:" \o ToJson(TLCGet(3)))
 =============================================================================
